@@ -306,7 +306,8 @@ package parse
 // token[k] (k < peekCount) holds the item k positions before the last one received.
 //@ define tcur(t) = nrecv(t.lex.items) - t.peekCount
 //@ define tokWF(t) = t != nil && t.lex != nil && 0 <= t.peekCount && t.peekCount <= 3 && t.peekCount <= nrecv(t.lex.items) &&
-//@     forall(k, 0, t.peekCount, t.token[k] == chanitem(t.lex.items, nrecv(t.lex.items) - 1 - k))
+//@     forall(k, 0, t.peekCount, t.token[k] == chanitem(t.lex.items, nrecv(t.lex.items) - 1 - k)) &&
+//@     implies(nrecv(t.lex.items) >= 1, t.lex.lastPos == chanitem(t.lex.items, nrecv(t.lex.items) - 1).pos)
 //@ func (*lexer).nextItem
 //@   requires l != nil
 //@   modifies l.lastPos
@@ -321,20 +322,21 @@ package parse
 //@   modifies received(t.lex.items)
 //@   nopanic
 //@   ensures tokWF(t) && result == chanitem(t.lex.items, old(tcur(t))) && tcur(t) == old(tcur(t)) + 1 && t.token[t.peekCount] == result && t.peekCount <= 2 && t.peekCount < nrecv(t.lex.items)
+//@   ensures implies(old(t.peekCount) == 0, t.peekCount == 0) && implies(old(t.peekCount) > 0, t.peekCount == old(t.peekCount) - 1)
 //@ func (*Tree).backup
 //@   requires tokWF(t) && t.peekCount < 3 && t.peekCount < nrecv(t.lex.items) && t.token[t.peekCount] == chanitem(t.lex.items, nrecv(t.lex.items) - 1 - t.peekCount)
 //@   modifies t.peekCount
 //@   nopanic
 //@   ensures tokWF(t) && tcur(t) == old(tcur(t)) - 1
 //@ func (*Tree).backup2
-//@   requires t != nil && t.lex != nil && nrecv(t.lex.items) >= 2 && t.token[0] == chanitem(t.lex.items, nrecv(t.lex.items) - 1) && t1 == chanitem(t.lex.items, nrecv(t.lex.items) - 2)
+//@   requires t != nil && t.lex != nil && nrecv(t.lex.items) >= 2 && t.token[0] == chanitem(t.lex.items, nrecv(t.lex.items) - 1) && t1 == chanitem(t.lex.items, nrecv(t.lex.items) - 2) && implies(nrecv(t.lex.items) >= 1, t.lex.lastPos == chanitem(t.lex.items, nrecv(t.lex.items) - 1).pos)
 //@   modifies t.peekCount
 //@   modifies t.token
 //@   nopanic
 //@   ensures tokWF(t) && tcur(t) == nrecv(t.lex.items) - 2
 //@ func (*Tree).backup3
 //@   requires t != nil && t.lex != nil && nrecv(t.lex.items) >= 3 && t.token[0] == chanitem(t.lex.items, nrecv(t.lex.items) - 1) &&
-//@            t1 == chanitem(t.lex.items, nrecv(t.lex.items) - 2) && t2 == chanitem(t.lex.items, nrecv(t.lex.items) - 3)
+//@            t1 == chanitem(t.lex.items, nrecv(t.lex.items) - 2) && t2 == chanitem(t.lex.items, nrecv(t.lex.items) - 3) && implies(nrecv(t.lex.items) >= 1, t.lex.lastPos == chanitem(t.lex.items, nrecv(t.lex.items) - 1).pos)
 //@   modifies t.peekCount
 //@   modifies t.token
 //@   nopanic
@@ -356,8 +358,9 @@ package parse
 //@   modifies received(t.lex.items)
 //@   nopanic
 //@   ensures tokWF(t) && tcur(t) > old(tcur(t)) && result == chanitem(t.lex.items, tcur(t) - 1) && result.typ != itemSep
+//@   ensures implies(old(t.peekCount) <= 1, t.peekCount == 0)
 //@   ensures forall(k, old(tcur(t)), tcur(t) - 1, chanitem(t.lex.items, k).typ == itemSep)
-//@   loop 0 invariant tokWF(t) && tcur(t) >= old(tcur(t)) && t.lex == old(t.lex) && forall(k, old(tcur(t)), tcur(t), chanitem(t.lex.items, k).typ == itemSep)
+//@   loop 0 invariant tokWF(t) && tcur(t) >= old(tcur(t)) && t.lex == old(t.lex) && forall(k, old(tcur(t)), tcur(t), chanitem(t.lex.items, k).typ == itemSep) && implies(old(t.peekCount) <= 1, t.peekCount <= 1)
 //@ func (*Tree).peekNonSpace
 //@   requires tokWF(t)
 //@   modifies t.peekCount
@@ -366,8 +369,9 @@ package parse
 //@   modifies received(t.lex.items)
 //@   nopanic
 //@   ensures tokWF(t) && tcur(t) >= old(tcur(t)) && result == chanitem(t.lex.items, tcur(t)) && result.typ != itemSep
+//@   ensures implies(old(t.peekCount) <= 1, t.peekCount == 1)
 //@   ensures forall(k, old(tcur(t)), tcur(t), chanitem(t.lex.items, k).typ == itemSep)
-//@   loop 0 invariant tokWF(t) && tcur(t) >= old(tcur(t)) && t.lex == old(t.lex) && forall(k, old(tcur(t)), tcur(t), chanitem(t.lex.items, k).typ == itemSep)
+//@   loop 0 invariant tokWF(t) && tcur(t) >= old(tcur(t)) && t.lex == old(t.lex) && forall(k, old(tcur(t)), tcur(t), chanitem(t.lex.items, k).typ == itemSep) && implies(old(t.peekCount) <= 1, t.peekCount <= 1)
 
 // ---------------------------------------------------------------------------
 // Double-quoted strings (C08, RFC 6020 6.1.3): continuation lines lose their indentation up to the column
@@ -503,3 +507,46 @@ package parse
 //@ func (Node).Children
 //@   nopanic
 //@   ensures forall(i, 0, len(result), result[i] != nil)
+
+// ---------------------------------------------------------------------------
+// Quoted arguments (C08, C10). openQuotePos locates the piece it is given by looking backwards from the lexer's
+// last delivered item, so trimWhitespace may only be called when that item is the piece's closing quote, i.e.
+// immediately after the quote was read and before anything else is requested from the lexer (atQuote).
+// That the text of the piece ends where that quote starts (justRead) is a property of the token stream that is
+// assumed here, not proved: the lexer emits a quoted string and its closing quote back to back.
+//@ define atQuote(t) = tokWF(t) && t.peekCount == 0 && nrecv(t.lex.items) >= 1 && chanitem(t.lex.items, nrecv(t.lex.items) - 1).typ == itemQuote
+//@ func (*Tree).errorf
+//@   requires t != nil && t.lex != nil
+//@   ensures false
+//@ func (*Tree).unexpected
+//@   requires t != nil && t.lex != nil
+//@   ensures false
+//@ func (*Tree).expect
+//@   requires tokWF(t)
+//@   modifies t.peekCount
+//@   modifies t.token
+//@   modifies t.lex.lastPos
+//@   modifies received(t.lex.items)
+//@   modifies t.Root
+//@   ensures tokWF(t) && result == chanitem(t.lex.items, tcur(t) - 1) && result.typ == expected && tcur(t) > old(tcur(t))
+//@   ensures implies(old(t.peekCount) <= 1, t.peekCount == 0)
+//@ func escapeSequenceSubstitution
+//@   assumed
+//@ func trimWhitespace
+//@   requires atQuote(t)
+//@ func (*Tree).argumentConcatenate
+//@   requires tokWF(t) && t.peekCount <= 1
+//@   modifies t.peekCount
+//@   modifies t.token
+//@   modifies t.lex.lastPos
+//@   modifies received(t.lex.items)
+//@   modifies t.Root
+//@   ensures tokWF(t) && t.peekCount <= 1
+//@ func (*Tree).argumentQuoted
+//@   requires tokWF(t) && t.peekCount <= 1
+//@   modifies t.peekCount
+//@   modifies t.token
+//@   modifies t.lex.lastPos
+//@   modifies received(t.lex.items)
+//@   modifies t.Root
+//@   ensures tokWF(t) && t.peekCount <= 1
